@@ -22,6 +22,18 @@
 //!   delW <w> | delR <r> | delPUB <i> | delSUB <i> | delT <i> | delP <i> | delall <p>
 //!   inject <p> <meta 0|1> <hex>              hand a raw datagram to participant p
 //!   sent                                     summary of user datagrams sent since the last `sent`
+//! additions for the reliability-protocol checks (C01-C04):
+//!   netm                                     deliver METATRAFFIC only, FIFO, until none is left (user datagrams stay queued)
+//!   q                                        full description of the queued user datagrams, in queue order
+//!   dl <i> | dr <i> | du <i>                 deliver / drop / duplicate(deliver twice) the i-th queued user datagram
+//!   x <dl|dr|du> <kind> <sn> <frag>          same on the first queued user datagram containing such a submessage; prints its index
+//!   pu                                       deliver USER datagrams only, FIFO incl. replies, until none is queued; prints how many
+//!   heal <k>                                 k rounds of (advance 250 ms ; deliver everything FIFO until quiescent)
+//!   wa <writer> | wp                         start a wait_for_acknowledgments and keep it pending | poll all started ones
+//!   ha <reader> | hp                         the same for wait_for_historical_data
+//!   kill <p>                                 participant p's host dies: nothing is delivered to it or accepted from it any more
+//!   jump <ns>                                the clock jumps by ns without intermediate timer wake-ups, then the worker runs
+//!   now                                      simulated time in ms
 use dust_dds::dds_async::data_reader::DataReaderAsync;
 use dust_dds::dds_async::data_writer::DataWriterAsync;
 use dust_dds::dds_async::domain_participant::DomainParticipantAsync;
@@ -145,8 +157,59 @@ fn summarize(bytes: &[u8]) -> Vec<(String, u32, i64, i64)> {
     v
 }
 
+type Pending = std::pin::Pin<Box<dyn std::future::Future<Output = DdsResult<()>>>>;
+
+/// every submessage of a datagram with all protocol-relevant fields
+fn describe(bytes: &[u8]) -> String {
+    let mut v: Vec<String> = vec![];
+    let set = |it: &mut dyn Iterator<Item = i64>| it.map(|x| x.to_string()).collect::<Vec<_>>().join(".");
+    if let Ok(m) = RtpsMessageRead::try_from(bytes) {
+        for s in m.submessages() {
+            match s {
+                RtpsSubmessageReadKind::Data(d) => v.push(format!("D:{}:{}", d.writer_sn(), d.serialized_payload().len())),
+                RtpsSubmessageReadKind::DataFrag(d) => v.push(format!(
+                    "F:{}:{}:{}:{}:{}",
+                    d.writer_sn(),
+                    d.fragment_starting_num(),
+                    d.fragments_in_submessage(),
+                    d.fragment_size(),
+                    d.data_size()
+                )),
+                RtpsSubmessageReadKind::Heartbeat(h) => v.push(format!(
+                    "H:{}:{}:{}:{}",
+                    h.first_sn(),
+                    h.last_sn(),
+                    h.count(),
+                    if h.final_flag() { 1 } else { 0 }
+                )),
+                RtpsSubmessageReadKind::AckNack(a) => v.push(format!(
+                    "A:{}:{}:{}",
+                    a.reader_sn_state().base(),
+                    set(&mut a.reader_sn_state().set()),
+                    a.count()
+                )),
+                RtpsSubmessageReadKind::Gap(g) => {
+                    v.push(format!("G:{}:{}:{}", g.gap_start(), g.gap_list().base(), set(&mut g.gap_list().set())))
+                }
+                RtpsSubmessageReadKind::NackFrag(n) => v.push(format!(
+                    "N:{}:{}:{}:{}",
+                    n.writer_sn(),
+                    n.fragment_number_state().base(),
+                    set(&mut n.fragment_number_state().set().map(|x| x as i64)),
+                    n.count()
+                )),
+                _ => {}
+            }
+        }
+    }
+    v.join(",")
+}
+
 struct World {
     sim: Sim,
+    waits: Vec<Option<Pending>>,
+    hwaits: Vec<Option<Pending>>,
+    dead: Vec<usize>,
     factory: DomainParticipantFactoryAsync<SimTransport>,
     parts: Vec<DomainParticipantAsync>,
     topics: Vec<TopicAsync>,
@@ -502,6 +565,173 @@ impl World {
                 self.sent_mark = log.len();
                 s
             }
+            "netm" => {
+                let mut k = 0;
+                self.sim.settle();
+                loop {
+                    let next = {
+                        let mut q = self.sim.shared.inflight.lock().unwrap();
+                        match q.iter().position(|p| p.meta && !p.held) {
+                            Some(i) => Some(q.remove(i)),
+                            None => None,
+                        }
+                    };
+                    let Some(p) = next else { break };
+                    if !self.dead.contains(&p.from) {
+                        self.sim.deliver_packet(&p);
+                    }
+                    k += 1;
+                    if k > 100_000 {
+                        break;
+                    }
+                }
+                format!("netm {}", k)
+            }
+            "q" => {
+                let q = self.sim.shared.inflight.lock().unwrap();
+                let mut s = String::from("q");
+                for p in q.iter().filter(|p| !p.meta && !p.held) {
+                    s += &format!(" {}>{}/{}", p.from, p.to, describe(&p.bytes));
+                }
+                s
+            }
+            "dl" | "dr" | "du" | "x" => {
+                let (act, idx) = if t[0] == "x" {
+                    let kind = t[2].to_string();
+                    let (sn, fr) = (n(3), n(4));
+                    let q = self.sim.shared.inflight.lock().unwrap();
+                    let pos = q.iter().filter(|p| !p.meta && !p.held).position(|p| {
+                        summarize(&p.bytes).iter().any(|(k, _, s, f)| (kind == "ANY" || &kind == k) && (sn < 0 || sn == *s) && (fr < 0 || fr == *f))
+                    });
+                    (t[1].to_string(), pos.map(|x| x as i64).unwrap_or(-1))
+                } else {
+                    (t[0].to_string(), n(1))
+                };
+                let taken = {
+                    let mut q = self.sim.shared.inflight.lock().unwrap();
+                    let real = q.iter().enumerate().filter(|(_, p)| !p.meta && !p.held).map(|(i, _)| i).nth(if idx < 0 { usize::MAX } else { idx as usize });
+                    real.map(|i| q.remove(i))
+                };
+                let hit = taken.is_some();
+                if let Some(p) = taken {
+                    let ok = !self.dead.contains(&p.from);
+                    match act.as_str() {
+                        "dr" => {}
+                        "du" => {
+                            if ok {
+                                self.sim.deliver_packet(&p);
+                                self.sim.deliver_packet(&p);
+                            }
+                        }
+                        _ => {
+                            if ok {
+                                self.sim.deliver_packet(&p);
+                            }
+                        }
+                    }
+                }
+                format!("{} {}", act, if hit { idx } else { -1 })
+            }
+            "heal" => {
+                let mut tot = 0;
+                for _ in 0..n(1) {
+                    self.sim.advance(250_000_000);
+                    let dead = self.dead.clone();
+                    tot += self.sim.pump(100_000, &mut |p| if dead.contains(&p.from) { 1 } else { 0 });
+                }
+                format!("heal {}", tot)
+            }
+            "wa" => {
+                let w = self.writers[u(1)].clone();
+                let mut f: Pending = Box::pin(async move { w.wait_for_acknowledgments().await });
+                let r = self.sim.run(&mut f, 0);
+                self.sim.settle();
+                match r {
+                    Ok(x) => {
+                        self.waits.push(None);
+                        format!("wa {}", rc(&x))
+                    }
+                    Err(_) => {
+                        self.waits.push(Some(f));
+                        "wa PENDING".into()
+                    }
+                }
+            }
+            "ha" => {
+                let rd = self.readers[u(1)].clone();
+                let mut f: Pending = Box::pin(async move { rd.wait_for_historical_data().await });
+                let r = self.sim.run(&mut f, 0);
+                self.sim.settle();
+                match r {
+                    Ok(x) => {
+                        self.hwaits.push(None);
+                        format!("ha {}", rc(&x))
+                    }
+                    Err(_) => {
+                        self.hwaits.push(Some(f));
+                        "ha PENDING".into()
+                    }
+                }
+            }
+            "wp" | "hp" => {
+                let mut list = std::mem::take(if t[0] == "wp" { &mut self.waits } else { &mut self.hwaits });
+                let mut s = String::from(t[0]);
+                for slot in list.iter_mut() {
+                    if let Some(f) = slot {
+                        match self.sim.run(f, 0) {
+                            Ok(x) => {
+                                s += &format!(" {}", rc(&x));
+                                *slot = None;
+                            }
+                            Err(_) => s += " P",
+                        }
+                    } else {
+                        s += " -";
+                    }
+                }
+                self.sim.settle();
+                if t[0] == "wp" {
+                    self.waits = list;
+                } else {
+                    self.hwaits = list;
+                }
+                s
+            }
+            "kill" => {
+                self.sim.shared.endpoints.lock().unwrap()[u(1)].alive = false;
+                self.dead.push(u(1));
+                "kill".into()
+            }
+            "pu" => {
+                // deliver USER datagrams only, FIFO, including replies, until none is queued
+                let mut k = 0;
+                self.sim.settle();
+                loop {
+                    let next = {
+                        let mut q = self.sim.shared.inflight.lock().unwrap();
+                        match q.iter().position(|p| !p.meta && !p.held) {
+                            Some(i) => Some(q.remove(i)),
+                            None => None,
+                        }
+                    };
+                    let Some(p) = next else { break };
+                    if !self.dead.contains(&p.from) {
+                        self.sim.deliver_packet(&p);
+                    }
+                    k += 1;
+                    if k >= 20_000 {
+                        break;
+                    }
+                }
+                format!("pu {}", k)
+            }
+            "jump" => {
+                // the clock jumps (no timer fires in between), then everything runnable runs
+                *self.sim.shared.now_ns.lock().unwrap() += n(1);
+                self.sim.settle();
+                "jump".into()
+            }
+            "now" => format!("now {}", self.sim.now() / 1_000_000),
             _ => format!("?{}", t[0]),
         }
     }
@@ -527,6 +757,9 @@ fn run_scenario(line: &str) -> String {
         readers: vec![],
         rules: vec![],
         sent_mark: 0,
+        waits: vec![],
+        hwaits: vec![],
+        dead: vec![],
     };
     let mut out = vec![];
     for op in line.split(';') {
